@@ -542,6 +542,8 @@ class Interp:
         if isinstance(so, S.TDict) and isinstance(v.sort, S.TDict):
             if [l[1] for l in so.leaves()] == [l[1] for l in v.sort.leaves()]:
                 return V(so, v.terms)
+            if v.sort.ordered and not so.ordered and v.sort.key == so.key and v.sort.val == so.val:
+                return V(so, v.terms[: 1 + so._nv()])  # forgetting the insertion order of an ordered dict
         if isinstance(so, S.TSet) and isinstance(v.sort, S.TSet):
             if [l[1] for l in so.leaves()] == [l[1] for l in v.sort.leaves()]:
                 return V(so, v.terms)
@@ -1689,6 +1691,8 @@ class Interp:
         return cur
 
     def _boolop_value(self, n, vals):
+        if all(isinstance(v, V) and getattr(v, "meta", None) == "emptylit" for v in vals):
+            return vals[-1]  # `{} or {}`: every operand is an empty literal, so is the value
         res = vals[-1]
         for v in reversed(vals[:-1]):
             t = self.truthy(v)
@@ -1832,6 +1836,16 @@ class Interp:
 
     def ex_Dict(self, n):
         rc = self.m.options.get("dict_literal_class")
+        if isinstance(rc, (list, tuple)):
+            # several record classes: the literal is an instance of the FIRST declared class whose vocabulary contains all of its keys
+            # (and whose remaining keys are optional)
+            lit = [k.value for k in n.keys if isinstance(k, ast.Constant) and isinstance(k.value, str)]
+            cands = sorted(rc, key=lambda c: len(self.m.classes[c].fields))  # the smallest fitting vocabulary ...
+            ret = getattr(self.fs, "ret", None) if self.fs is not None else None
+            if isinstance(ret, S.TRef) and ret.cls in rc:
+                cands = [ret.cls] + [c for c in cands if c != ret.cls]  # ... after the class the unit is declared to return
+            rc = next((c for c in cands if n.keys and len(lit) == len(n.keys) and all(k in self.m.classes[c].fields for k in lit)
+                       and all(isinstance(so, S.TOpt) for f, so in self.m.classes[c].fields.items() if f not in lit)), None)
         if rc and n.keys and all(isinstance(k, ast.Constant) and isinstance(k.value, str) and k.value in self.m.classes[rc].fields for k in n.keys):
             # a dict literal with this vocabulary of keys is an instance of the declared record class
             ref = self.new_ref(rc)
@@ -1904,6 +1918,9 @@ class Interp:
         r = call_special(self, n)
         if r is not NotImplemented:
             return r
+        g = self._gather_idiom(n)
+        if g is not None:
+            return g
         if isinstance(n.func, ast.Name) and n.func.id == "super" and not n.args and "super" not in self.st.locals:
             owner = self.current_class()
             recv = self.st.locals.get("self")
@@ -1943,6 +1960,51 @@ class Interp:
                 raise OutOfSubset("**kwargs at call")
             kwargs[kw.arg] = self.ev(kw.value)
         return self.call(f, args, kwargs, n)
+
+    def _gather_idiom(self, n):
+        """asyncio.gather(*(asyncio.create_task(CALL) for x in XS)) — the concurrent map that streamflow uses everywhere.
+        (a) CALL is a pure lookup (a contract declared pure=True): the result is the list [CALL for x in XS], pointwise and in order.
+        (b) CALL is `x.m(args)` with effects: the gather is a call of the LEMMA gather_<m>(XS, args) of the contract file, whose ghost
+            loop runs the calls one after the other (A-GATHER-SEQ: tasks are sequentialised in list order; interleavings at their
+            await points are not modelled) — a proved unit, not an assumed one.  Anything else stays outside the subset."""
+        if not (_dotted(n.func) == "asyncio.gather" and len(n.args) == 1 and not n.keywords and isinstance(n.args[0], ast.Starred)
+                and isinstance(n.args[0].value, ast.GeneratorExp)):
+            return None
+        ge = n.args[0].value
+        c = ge.elt
+        if not (isinstance(c, ast.Call) and _dotted(c.func) == "asyncio.create_task" and len(c.args) == 1 and isinstance(c.args[0], ast.Call)
+                and len(ge.generators) == 1 and not ge.generators[0].ifs and not ge.generators[0].is_async):
+            raise OutOfSubset("asyncio.gather over something else than create_task(call) for x in xs")
+        inner = c.args[0]
+        gen = ge.generators[0]
+        from .builtins import comprehension
+
+        dec_mark = len(self.dec.trace) if hasattr(self.dec, "trace") else None
+        try:
+            lc = ast.ListComp(elt=inner, generators=[gen])
+            ast.copy_location(lc, n)
+            ast.fix_missing_locations(lc)
+            r = comprehension(self, lc, "list")
+            self.eng.idioms.setdefault(self.fname, set()).add(f"line {getattr(n, 'lineno', '?')}: gather of pure lookups -> list comprehension")
+            return r
+        except OutOfSubset as e:
+            pure_err = e
+        # (b) effectful: x.m(args) for x in XS  ->  lemma gather_m(XS, *args)
+        if (isinstance(inner.func, ast.Attribute) and isinstance(inner.func.value, ast.Name) and isinstance(gen.target, ast.Name)
+                and inner.func.value.id == gen.target.id and not inner.keywords
+                and not any(isinstance(x, ast.Name) and x.id == gen.target.id for a in inner.args for x in ast.walk(a))):
+            lname = "gather_" + inner.func.attr
+            if lname in self.m.lemmas:
+                from .builtins import as_list
+
+                xs = self.ev(gen.iter)
+                xs = as_list(self, xs) if not (isinstance(xs, V) and isinstance(xs.sort, S.TList)) else xs
+                args = [xs] + [self.ev(a) for a in inner.args]
+                self.eng.idioms.setdefault(self.fname, set()).add(
+                    f"line {getattr(n, 'lineno', '?')}: gather of {inner.func.attr}() tasks -> lemma {lname} (sequentialised, A-GATHER-SEQ)")
+                r = self.call_contract(self.m.lemmas[lname], args, {}, n)
+                return r if r is not None else NONE
+        raise OutOfSubset(f"asyncio.gather: {pure_err}")
 
     def call(self, f, args, kwargs, node):
         from .builtins import call_builtin
@@ -2406,6 +2468,20 @@ class Interp:
     def construct(self, clsname, args, kwargs, node):
         q, kind = self.m.find_method(clsname, "__init__")
         ref = self.new_ref(clsname)
+        if q is None and self.m.classes[clsname].record and not args:
+            # Rec(k=v, ...) in ghost code: the dict literal {"k": v, ...} of that record class (absent optional keys stay absent)
+            from .builtins import wrap_present
+
+            for f, so in self.m.classes[clsname].fields.items():
+                if f in kwargs:
+                    self.set_field(ref, f, wrap_present(self, kwargs[f], so))
+                elif isinstance(so, S.TOpt):
+                    self.set_field(ref, f, so.none())
+                else:
+                    raise OutOfSubset(f"record {clsname} built without mandatory key {f}")
+            if set(kwargs) - set(self.m.classes[clsname].fields):
+                raise OutOfSubset(f"record {clsname} has no key {sorted(set(kwargs) - set(self.m.classes[clsname].fields))}")
+            return ref
         if q is None:
             # no constructor under contract: fields start unconstrained but the object is fresh
             if args or kwargs:
